@@ -385,7 +385,9 @@ func (r *rollbackMitigation) waitFirstConfig() error {
 		time.Now().Add(r.config.ConnectionTimeout),
 		gocbcore.WaitForConfigSnapshotOptions{},
 		func(result *gocbcore.WaitForConfigSnapshotResult, err error) {
-			r.configSnapshot = result.Snapshot
+			if err == nil {
+				r.configSnapshot = result.Snapshot
+			}
 
 			opm.Resolve()
 
